@@ -17,7 +17,7 @@ EXT_BOOLS = ["is_archive", "is_audio", "is_book", "is_doc", "is_font", "is_image
 NUM_OPS = ["=", "==", "eq", "!=", "<>", "ne", "===", "!==", ">", "gt", ">=", "gte", "ge", "<", "lt", "<=", "lte", "le"]
 TEXT_OPS = ["=", "==", "eq", "!=", "<>", "ne", "===", "!==", "=~", "~=", "regexp", "rx", "!=~", "!~=", "like",
             "not like"]
-BOOL_OPS = ["=", "==", "eq", "!=", "<>", "ne", "===", "!=="]
+BOOL_OPS = ["=", "==", "eq", "!=", "<>", "ne", "===", "!==", ">", ">=", "<", "<=", "gt", "gte", "lt", "lte", "eeq", "ene"]
 DATE_OPS = ["=", "!=", "<", "<=", ">", ">=", "===", "!==", "eq", "ne", "gt", "lt", "gte", "lte"]
 
 
@@ -260,7 +260,7 @@ def run_job(job):
 
 def main(chk):
     quick = chk.tier == "quick"
-    n = 160 if quick else 1200
+    n = 640 if quick else 2000
     jobs = [{"id": "t%d" % i, "seed": job_seed(chk.seed, "C02", i), "queries": 60 if quick else 150} for i in range(n)]
     chk.run_jobs(jobs, budget_s=300 if quick else 3000)
     return chk.finish(
